@@ -149,7 +149,7 @@ func (h *headServer) ServeHTTP(w http.ResponseWriter, r *http.Request) {
 
 func TestCheck(t *testing.T) {
 	r := vp.New("C03", "exploration",
-		"publisher side: every root of a 10-CID alphabet (v0, v1 x 3 codecs x 3 hash functions) x 10 topics (none, ascii, unicode, 256, 1000 and 6600 bytes, ending in '/', only '/', padded with spaces, mixed case) x key types: the real Publisher's /head answer is validated by the reference and must be accepted, with the same CID and signer, by the library's own head.Decode / Validate; one publisher taken through every ordered pair of roots (root, other root, first root again), the head verified after every change. Client side: for each of a corpus of valid encoded heads (key types x topics) served verbatim to the real Syncer.GetHead (libp2p-HTTP discovery and plain HTTP): every single-byte substitution, every truncation, and field-level alterations (CID replaced, topic added/removed/changed/given a leading or trailing slash, space or NUL/upper-cased/shortened by a character, key of another identity of the same and another type, signature of another head, key+signature swapped between two valid heads, re-signed by another identity, empty key, empty signature); every field-level alteration served cold (fresh Syncer) and after each of 5 histories of valid heads on a reused Syncer ([valid], [other root], [valid, other], [other, valid], [valid, valid]), each altered head served up to 3 times in a row, followed by both valid heads again; every byte-level alteration right after the valid head on a reused Syncer (every 8th also cold); every field-level alteration also against Syncers created for address lists that mix the HTTP address with a non-HTTP one (both orders), repeat it, or hold nil entries, and against sync clients built with each ClientOption (server peer-ID authentication on/off, time-out, retry) and with all of them, and over the libp2p stream transport (publisher = a libp2p host with the publisher's identity serving over streams only, client built with ClientStreamHost; loopback TCP); every alteration class also through Subscriber.SyncAdChain, cold and after a healthy sync with a head query (altered head derived from the head served before, and from the current one), with the publisher named in the ID field of the AddrInfo and named only by a /p2p component of its addresses, or by the ID field next to a nil entry and an address whose /p2p component names another identity. Non-trivial: every altered head. Distinct = distinct (head, alteration).",
+		"publisher side: every root of a 10-CID alphabet (v0, v1 x 3 codecs x 3 hash functions) x 10 topics (none, ascii, unicode, 256, 1000 and 6600 bytes, ending in '/', only '/', padded with spaces, mixed case) x key types: the real Publisher's /head answer is validated by the reference and must be accepted, with the same CID and signer, by the library's own head.Decode / Validate; one publisher taken through every ordered pair of roots (root, other root, first root again), the head verified after every change. Client side: for each of a corpus of valid encoded heads (key types x topics) served verbatim to the real Syncer.GetHead (libp2p-HTTP discovery and plain HTTP): every single-byte substitution, every truncation, and field-level alterations (CID replaced, topic added/removed/changed/given a leading or trailing slash, space or NUL/upper-cased/shortened by a character, key of another identity of the same and another type, signature of another head, key+signature swapped between two valid heads, re-signed by another identity, empty key, empty signature); every field-level alteration served cold (fresh Syncer) and after each of 5 histories of valid heads on a reused Syncer ([valid], [other root], [valid, other], [other, valid], [valid, valid]), each altered head served up to 3 times in a row, followed by both valid heads again; every byte-level alteration right after the valid head on a reused Syncer (every 8th also cold); every field-level alteration also against Syncers created for address lists that mix the HTTP address with a non-HTTP one (both orders), repeat it, or hold nil entries, and against sync clients built with each ClientOption (server peer-ID authentication on/off, time-out, retry) and with all of them, and over the libp2p stream transport (publisher = a libp2p host with the publisher's identity serving over streams only, client built with ClientStreamHost; loopback TCP); every alteration class also through Subscriber.SyncAdChain, cold and after a healthy sync with a head query (altered head derived from the head served before, and from the current one), with the publisher named in the ID field of the AddrInfo and named only by a /p2p component of its addresses, or by the ID field next to a nil entry and an address whose /p2p component names another identity. Every head the reference rejects is also read the other documented way (generic node, UnwrapSignedHead, Validate, signer compared) and must not be accepted there either. Non-trivial: every altered head. Distinct = distinct (head, alteration).",
 		"reference validator (generic DAG-JSON decode + libp2p crypto) is the oracle; an altered encoding is required to be rejected only when the reference rejects it (byte changes that alter no value are not alterations)",
 		"announce-triggered syncs do not query the head and are out of this property's reach",
 		"ECDSA signatures are randomised by the signer (libp2p/crypto), so the encoded ECDSA head, and with it the number of byte positions enumerated, varies by a few bytes between runs; every other fixture is deterministic",
@@ -442,6 +442,27 @@ func clientSide(t *testing.T, r *vp.Recorder, kt, topic string, ti int, disc, th
 			return
 		}
 		rc, rsigner, rok, why := refValidate(body, me.ID)
+		// the other documented way to read a head: decode it as a generic node,
+		// UnwrapSignedHead, Validate, compare the signer. It may be stricter
+		// than the reference about how a head is written, never more lenient
+		// about who signed what.
+		if !rok && !overRealNetwork {
+			nb := basicnode.Prototype.Any.NewBuilder()
+			if dagjson.Decode(nb, bytes.NewReader(body)) == nil {
+				var sh *head.SignedHead
+				var uerr, verr error
+				var signer peer.ID
+				if pn, pm := vp.Guard(func() {
+					if sh, uerr = head.UnwrapSignedHead(nb.Build()); uerr == nil {
+						signer, verr = sh.Validate()
+					}
+				}); pn {
+					r.Violation("unwrap-route:panic:"+class, key, when+": "+firstLine(pm), nil)
+				} else if uerr == nil && verr == nil && signer == me.ID {
+					r.Violation("unwrap-route:accepted-altered-head:"+class, key, fmt.Sprintf("%s: a generic node handed to UnwrapSignedHead and Validate is accepted as signed by the publisher although the reference rejects the head (%s)", when, why), nil)
+				}
+			}
+		}
 		switch {
 		case rok && (gerr != nil || !got.Equals(rc)):
 			r.Violation("client:valid-head-rejected:"+kt, key, fmt.Sprintf("%s: GetHead on a head that the reference accepts (cid %s): %s, %v", when, rc, got, gerr), nil)
